@@ -279,6 +279,115 @@ def run_full(unit):
     yield log.result()
 
 
+# ---- the pressure series WellBores.Calculate leaves behind -------------------------------------------------------------------
+PRESS_SPEC = [('wellbores.Phydrostatic', 1000.0, 100000.0), ('wellbores.overpressure_percentage', 100, 1000),
+              ('wellbores.overpressure_depletion_rate', 0.1, 100), ('wellbores.injection_reservoir_inflation_rate', 0, 10000)]
+
+
+def run_pressures(unit):
+    """The modelled reservoir pressures as the real WellBores.Calculate LEAVES them (after redrilling, after every later step of the method):
+    the production-reservoir series is the predictor's series for the stated hydrostatic pressure, overpressure and depletion rate - starts at
+    overpressure% x hydrostatic, declines linearly, never rises, never falls below hydrostatic - and the injection-reservoir series is the
+    inflation predictor's series (split reservoir) or the production series (one reservoir).  Hydrostatic pressure, overpressure, depletion and
+    inflation rates are symbolic; whether overpressure / an inflation rate were given, and whether the wells are redrilled, are configurations."""
+    L, T, flags = unit['L'], unit['T'], unit['flags']
+    N = L * T
+    cfg = {'harness': 'pressure-series-after-calculate', 'L': L, 'T': T, 'flags': flags}
+    log = harness.UnitLog(cfg)
+    names = [n for n, _, _ in PRESS_SPEC]
+    ranges = {n: (lo, hi) for n, lo, hi in PRESS_SPEC}
+
+    def drive(v, symbolic):
+        m = c05.base_model(4, 1, L, T)
+        m.reserv.Calculate(m)
+        wb = m.wellbores
+        if flags['redrill']:
+            # a reservoir that cools quickly (concrete series): with Maximum Drawdown 0.1 the wells are redrilled after the first time step(s)
+            t0 = float(m.reserv.Tresoutput.value[0])
+            m.reserv.Tresoutput.value = np.array([t0 * (1 - 0.12 * i) for i in range(N)])
+            wb.maxdrawdown.value = 0.1
+        for n, val in v.items():
+            comp, attr = n.split('.')
+            getattr(getattr(m, comp), attr).value = val
+        wb.usebuiltinhydrostaticpressurecorrelation = False
+        wb.overpressure_percentage.Provided = flags['overpressure_given']
+        wb.injection_reservoir_inflation_rate.Provided = flags['inflation_given']
+        if not flags['overpressure_given']:
+            wb.overpressure_percentage.value = 100.0          # the value the parameter holds when it is not given
+        wb.rameyoptionprod.value = False
+        hydro = wb.Phydrostatic.quantity().to(wb.production_reservoir_pressure.CurrentUnits).magnitude
+        if symbolic:
+            with shim.shadow(*WB_SHADOWS):
+                wb.Calculate(m)
+                want = WB.ReservoirPressurePredictor(L, T, hydro, wb.overpressure_percentage.value, wb.overpressure_depletion_rate.value)
+                wanti = WB.InjectionReservoirPressurePredictor(L, T, wb.injection_reservoir_initial_pressure.value, wb.injection_reservoir_inflation_rate.value) \
+                    if flags['overpressure_given'] else want
+        else:
+            with contextlib.redirect_stdout(io.StringIO()):
+                wb.Calculate(m)
+            want = WB.ReservoirPressurePredictor(L, T, hydro, wb.overpressure_percentage.value, wb.overpressure_depletion_rate.value)
+            wanti = WB.InjectionReservoirPressurePredictor(L, T, wb.injection_reservoir_initial_pressure.value, wb.injection_reservoir_inflation_rate.value) \
+                if flags['overpressure_given'] else want
+        return m, hydro, list(want), list(wanti)
+
+    def obligations(m, hydro, want, wanti, symbolic):
+        wb = m.wellbores
+        close = (lambda a, b: eq(a, b)) if symbolic else (lambda a, b: harness.close(float(a), float(b), rel=1e-9))
+        P = list(np.ravel(wb.production_reservoir_pressure.value))
+        Q = list(np.ravel(wb.injection_reservoir_pressure.value))
+        out = [('production-reservoir pressure has one value per time step', len(P) == N),
+               ('injection-reservoir pressure has one value per time step', len(Q) == N),
+               ('wells are redrilled in this configuration' if flags['redrill'] else 'no redrilling in this configuration', (int(wb.redrill.value) > 0) == bool(flags['redrill']))]
+        if len(P) == N:
+            for i in range(N):
+                out.append((f'production-reservoir pressure[{i}] left by Calculate = overpressure start declining at the depletion rate, floored at hydrostatic', close(P[i], want[i])))
+                out.append((f'production-reservoir pressure[{i}] is never below hydrostatic', _ge(P[i], hydro)))
+                if i:
+                    out.append((f'production-reservoir pressure[{i}] does not rise', _ge(P[i - 1], P[i])))
+        if len(Q) == N:
+            for i in range(N):
+                out.append((f'injection-reservoir pressure[{i}] left by Calculate = ' + ('initial + inflation rate x time' if flags['overpressure_given'] else 'the production-reservoir pressure (one reservoir)'),
+                            close(Q[i], wanti[i])))
+        return out
+
+    def concrete(inp, only=None):
+        v = {n: float(inp[n]) for n in names}
+        try:
+            m, hydro, want, wanti = drive(v, False)
+        except Exception as e:
+            return False, {'raised': repr(e)[:200]}
+        bad = [n for n, ok in obligations(m, hydro, want, wanti, False) if not ok and (only is None or n == only)]
+        return bool(bad), {'failed': bad[:4], 'production reservoir pressure': [float(x) for x in np.ravel(m.wellbores.production_reservoir_pressure.value)],
+                           'injection reservoir pressure': [float(x) for x in np.ravel(m.wellbores.injection_reservoir_pressure.value)],
+                           'predictor (production)': [float(x) for x in want], 'redrill': int(m.wellbores.redrill.value)}
+
+    def fn():
+        v = {n: sym(n, *ranges[n]) for n in names}
+        m, hydro, want, wanti = drive(v, True)
+        return obligations(m, hydro, want, wanti, True)
+    zv = {n: z3.Real(n) for n in names}
+
+    def probe():
+        yield {n: (ranges[n][0] + ranges[n][1]) / 2 for n in names}
+        yield {'wellbores.Phydrostatic': 30000.0, 'wellbores.overpressure_percentage': 140.0, 'wellbores.overpressure_depletion_rate': 15.0,
+               'wellbores.injection_reservoir_inflation_rate': 250.0}
+        yield {'wellbores.Phydrostatic': 30000.0, 'wellbores.overpressure_percentage': 100.0, 'wellbores.overpressure_depletion_rate': 15.0,
+               'wellbores.injection_reservoir_inflation_rate': 250.0}
+    k = 0
+    for pr in core.explore(fn, max_paths=20000):
+        log.path(pr)
+        k += 1
+        if pr.aborted:
+            continue
+        if pr.error is not None:
+            raise pr.error
+        if k <= 4 or k % 64 == 0:
+            harness.reachable(log, pr.ctx, 1000)
+        for name, cond in pr.value:
+            harness.discharge(log, pr.ctx, name, cond, zv, lambda inp, name=name: concrete(inp, name), timeout_ms=20000, sample=(k == 1), probe=probe)
+    yield log.result()
+
+
 # ---- laminar friction vs diameter --------------------------------------------------------------------------
 def run_friction(unit):
     N = 2
@@ -404,6 +513,11 @@ def units(tier, seed):
         us.append({'harness': 'full', 'L': L0, 'T': T0, 'mode': 'indexes', 'flags': {'pumping': True, 'builtin_wellhead': False, 'plant': 'single-flash'}})
         us.append({'harness': 'full', 'L': L0, 'T': T0, 'mode': 'indexes', 'flags': {'pumping': False, 'builtin_wellhead': True, 'plant': 'orc'}})
     us.append({'harness': 'friction'})
+    # the pressure series as WellBores.Calculate leaves them: (overpressure given, inflation rate given, redrilling)
+    for (L, T) in ([(2, 1)] if tier == 'quick' else [(2, 1), (3, 1), (2, 2)]):
+        for og, ig in ((True, True), (False, True), (False, False)):
+            for rd in (False, True):
+                us.append({'harness': 'pressures', 'L': L, 'T': T, 'flags': {'overpressure_given': og, 'inflation_given': ig, 'redrill': rd}})
     return us
 
 
@@ -415,6 +529,8 @@ def run_unit(unit):
         yield from run_full(unit)
     elif h == 'pressure-inputs':
         yield from run_pressure_inputs(unit)
+    elif h == 'pressures':
+        yield from run_pressures(unit)
     else:
         yield from run_friction(unit)
 
